@@ -294,3 +294,58 @@ Proof.
   split; [exact nv_ignore_exit0_by_theorem|]. split; [exact nv_free_by_theorem|].
   split; [exact (proj1 nv_conflicts_by_theorem)|]. split; [exact (proj2 nv_conflicts_by_theorem) | exact nv_stop_by_theorem].
 Qed.
+
+(* ---- the whole program (Whole/Main.v [tempren_main]; proofs: Whole/PipelineProps.v) ---- *)
+From Coq Require Import Permutation.
+From Tempren Require Import Pipe.FrontCompile Whole.Library Whole.Render Whole.Gather Whole.Main Whole.Facts Whole.ExactWhole
+  Whole.PipelineProps Whole.Examples.
+
+(* Name mode, stop, a real run without fault, any template text and registry, -r, -ih, sort, listing order: if tempren
+   ends with DestinationAlreadyExistsError (exit status 1: C03_whole_dest_error_is_status_1) then the plan the program rendered itself really contains a
+   conflict - a gathered file whose new name differs from its own and is taken in the initial tree or is also the new
+   name of another gathered file.  Hypotheses as in C03_stop_only_on_conflict ([selected_ok], read on the program's
+   plan as in C02_whole_exact): nothing is gathered twice, and every rendered value is a valid name.  The front end's
+   own failures (status 2 / 3 / 126) are never that error. *)
+Theorem C03_whole_stop_only_on_conflict : forall upper lower R o text dirs s,
+  tree_ok s ->
+  o_mode o = MName -> o_strategy o = Stop -> o_dry o = false -> o_fault o = None ->
+  (forall l, Permutation l (o_listing o l)) ->
+  NoDup (map src_key (gather_all o s dirs)) ->
+  (forall b, compile R text = inl b ->
+     Forall (fun e => exists t, snd e = RText t /\ valid_name_b t = true) (whole_plan upper lower b o dirs s)) ->
+  let r := tempren_main upper lower R o text dirs s in
+  r_error r = Some ExDestExists ->
+  exists b, compile R text = inl b /\
+  exists f t, In (f, RText t) (whole_plan upper lower b o dirs s) /\ In f (gather_all o s dirs) /\
+    dst_key f t <> src_key f /\
+    (lookup s (dst_key f t) <> None \/
+     exists f' t', In (f', RText t') (whole_plan upper lower b o dirs s) /\ In f' (gather_all o s dirs) /\
+                   src_key f' <> src_key f /\ dst_key f' t' = dst_key f t).
+Proof. exact whole_stop_only_on_conflict. Qed.
+Print Assumptions C03_whole_stop_only_on_conflict.
+
+(* ending with that error is ending with exit status 1 (any options, any text) *)
+Theorem C03_whole_dest_error_is_status_1 : forall upper lower R o text dirs s,
+  let r := tempren_main upper lower R o text dirs s in
+  r_error r = Some ExDestExists -> r_status r = 1%Z.
+Proof. exact whole_dest_error_status. Qed.
+Print Assumptions C03_whole_dest_error_is_status_1.
+
+(* "x" on the example tree, -r, sorted: status 1 with that error, and in/a.t and in/b.t both get the name in/x; the
+   counting template gives no conflict and status 0 *)
+Example C03_whole_example :
+  let o := ex_options MName true true in
+  let r := ex_main o t_x ex_dirs ex_tree in
+  r_status r = 1%Z /\ r_error r = Some ExDestExists /\
+  (exists b, compile core_reg t_x = inl b /\
+     forallb (fun e => match snd e with RText t => valid_name_b t | _ => false end)
+             (whole_plan ascii_upper_str ascii_lower_str b o ex_dirs ex_tree) = true /\
+     map (fun e => match snd e with RText t => dst_key (fst e) t | _ => [] end)
+         (whole_plan ascii_upper_str ascii_lower_str b o ex_dirs ex_tree) =
+     [[Examples.ex_in; [120]]; [Examples.ex_in; [120]]; [Examples.ex_in; [115]; [120]]; [Examples.ex_in; [115]; [120]]]) /\
+  r_status (ex_main o t_upper_count ex_dirs ex_tree) = 0%Z /\ r_error (ex_main o t_upper_count ex_dirs ex_tree) = None.
+Proof.
+  split; [vm_compute; reflexivity|]. split; [vm_compute; reflexivity|]. split.
+  - eexists. split; [vm_compute; reflexivity|]. vm_compute. split; reflexivity.
+  - vm_compute. split; reflexivity.
+Qed.
